@@ -7,6 +7,7 @@ from typing import Dict, List, Optional, Set, Tuple
 from ..cfg import CFG, Node
 from ..core import AnalysisError, Cls, Fn, Repo, call_name, calls_in, const_value, dotted, get_kw, last_attr, short, walk_no_nested
 from ..domains import conjuncts
+from ..pat import has
 from ..report import Check
 from ..terms import Poly, TermBuilder, mentions, single_atom
 from ..util import self_attr_stores
@@ -200,7 +201,7 @@ def _preserve_slices(ck: Check, repo: Repo, fn: Fn) -> None:
         ck.ob("C04.1", fn, d if d is not None else n.ast, ok, "the index is slice(0, min(old, new)) in every dimension (zip of both size tuples)")
     # sizes are those of the matching parameters
     src = ast.unparse(fn.node)
-    ck.ob("C04.1", fn, fn.node, "old_size = old_param.data.size()" in src and "new_size = param.data.size()" in src and "old_param = old_net_dict[key]" in src,
+    ck.ob("C04.1", fn, fn.node, has(src, '$old_size = $old_param.data.size()') and has(src, '$new_size = $param.data.size()') and has(src, '$old_param = $old_net_dict[$key]'),
           "old_size / new_size are the sizes of the same-named old and new parameter", construct="size sources")
 
 
